@@ -140,12 +140,44 @@ func (h *H) wrapRandom(fieldBits uint) uint64 {
 			k = new(big.Int).Rand(rng, top)
 			k.Add(k, big.NewInt(1))
 		}
-		v := wrapCount(w, s, k, uint64(rng.Intn(4)))
+		d := uint64(rng.Intn(4))
+		if rng.Intn(4) == 0 {
+			// a size field that counts a fixed part too (see wrapBiased)
+			d += wrapBiases[rng.Intn(len(wrapBiases))]
+		}
+		v := wrapCount(w, s, k, d)
 		if uint(v.BitLen()) <= fieldBits {
 			return v.Uint64()
 		}
 	}
 	return 1<<(fieldBits-1) | 1
+}
+
+// A size field often counts a fixed part (a header, an identifier) that the
+// decoder subtracts before it looks at the payload: what wraps is then
+// field - fixed, and the hostile values are a wrap-around point PLUS the fixed
+// part.  wrapBiased: for every width the first and the last multiple of 2^W
+// that fit the field (byte sizes: entry size 1) plus each of the plausible
+// fixed parts (multiples of 4 up to 64).
+var wrapBiases = []uint64{4, 8, 12, 16, 20, 24, 28, 32, 36, 40, 44, 48, 52, 56, 60, 64}
+
+func wrapBiased(fieldBits uint) []uint64 {
+	var out []uint64
+	one := big.NewInt(1)
+	for _, w := range wrapWidths {
+		top := wrapTopK(fieldBits, w, 1)
+		if top.Sign() <= 0 {
+			continue
+		}
+		for _, k := range []*big.Int{one, top} {
+			for _, b := range wrapBiases {
+				if v := wrapCount(w, 1, k, b); uint(v.BitLen()) <= fieldBits {
+					out = append(out, v.Uint64())
+				}
+			}
+		}
+	}
+	return out
 }
 
 // wrapSample: wrap-around points for one field.  allFirst: the first
@@ -290,9 +322,13 @@ func (h *H) wrapACM(name string, full, small []byte, nFull, nSmall, extra int) {
 // set: a single list with the field under test in its first element)
 func (h *H) wrapPolData(n32, n16, extra int) {
 	bad := cat(le32(12), le32(99), le32(0))
+	// the Size of an element counts its header and fixed fields: biased points as well; 64 data bytes are present
+	for _, v := range append(h.wrapSample(32, true, n32, extra), wrapBiased(32)...) {
+		u := uint32(v)
+		h.run("ParsePolicyData/wrapfield", dPolicyData, nil, polData(1, list1(0, 200, eltCustom(u, 64), nil)), nil, fmt.Sprintf("custom element Size := %#x, 64 data bytes", u))
+	}
 	for _, v := range h.wrapSample(32, true, n32, extra) {
 		u := uint32(v)
-		h.run("ParsePolicyData/wrapfield", dPolicyData, nil, polData(1, list1(0, 100, eltCustom(u, 8), nil)), nil, fmt.Sprintf("custom element Size := %#x", u))
 		h.run("ParsePolicyData/wrapfield", dPolicyData, nil, polData(1, cat(le16(0x100), []byte{0, 0}, le32(100), bad), list2(u, eltMLE(16, 0, 0))), nil, fmt.Sprintf("list2 PolicyElementSize (count) := %#x", u))
 	}
 	for _, v := range h.wrapSample(32, false, n32, extra) {
